@@ -4,6 +4,8 @@ import (
 	"encoding/json"
 	"os"
 	"path/filepath"
+
+	"verifharness/drv"
 )
 
 // progress: before every call into the real code that may start goroutines of its own (Store.Commit -> CommitParallel
@@ -11,17 +13,23 @@ import (
 // supervising parent process (cmd/c16) turns a dead child + this note into the oracle failure
 // C16:process-crash-in-real-code with the history as replay.
 var progressDir string
+var progressOut *drv.Out // the oracle failures recorded so far travel with the note (they would die with the process)
 
 type ProgressNote struct {
-	Case     string   `json:"case"`
-	InFlight string   `json:"op_in_progress"`
-	History  []string `json:"history"`
+	Case     string              `json:"case"`
+	InFlight string              `json:"op_in_progress"`
+	History  []string            `json:"history"`
+	Failures []drv.OracleFailure `json:"failures_so_far"`
 }
 
 func Progress(caseName, inflight string, hist []string) {
 	if progressDir == "" {
 		return
 	}
-	bz, _ := json.Marshal(ProgressNote{caseName, inflight, hist})
+	note := ProgressNote{Case: caseName, InFlight: inflight, History: hist}
+	if progressOut != nil {
+		note.Failures = progressOut.Failures
+	}
+	bz, _ := json.Marshal(note)
 	os.WriteFile(filepath.Join(progressDir, "progress.json"), bz, 0o644)
 }
